@@ -11,7 +11,9 @@
 (*   idx      index.json: set of <<ref.name annotation or "", digest>>;     *)
 (*            hasidx: the file exists (the first manifestPut creates it;    *)
 (*            a BlobPut only creates oci-layout)                            *)
-(*   modRefs  OCIDir.modRefs: r.Path -> ociGC{mod, locks} (ex = key present)*)
+(*   modRefs  OCIDir.modRefs: gcKey(r) -> ociGC{mod, locks} (ex = key       *)
+(*            present); gcKey normalizes the path (NormKeys; the literal    *)
+(*            r.Path of the tree as found is kept as a switch)              *)
 (*   per ImageCopy call c (image.go): cst (idle / run / fail / ok / err),   *)
 (*   act (running imageCopyOpt instances), need (looked up in the layout,   *)
 (*   not there: to be fetched from the source), hit (what the target tag    *)
@@ -42,7 +44,7 @@
 (*   Close            ocidir/close.go:Close (skip if gc off / no entry /    *)
 (*                    not mod / locks>0; else mark = closeProcManifest from *)
 (*                    index.json, sweep blobs/, delete the modRefs entry)   *)
-(*   TagDelete        ocidir/tag.go:tagDelete                               *)
+(*   TagDelete        ocidir/tag.go:tagDelete (every entry of the tag)      *)
 (*   ManifestDelete   ocidir/manifest.go:ManifestDelete (referrerDelete for *)
 (*                    a manifest with a subject, index entries, file)       *)
 (*   Retag            image.go:ImageCopy inside the layout (same repository: *)
@@ -68,6 +70,8 @@
 (* subject (M1) is one of the catalogue nodes R1 / R2 / R12 according to    *)
 (* the set it lists; rename and refMod of a BlobPut are one step; a         *)
 (* ManifestHead on the layout is folded into the step that follows it; the  *)
+(* (ManifestHead holds OCIDir.mu from the index lookup to the file check,    *)
+(* so the fold loses nothing); the                                          *)
 (* put throttle (3 per path) and the order in which goroutines of one copy  *)
 (* are admitted are not modelled (any order is allowed); I/O errors other   *)
 (* than a vanished temp file and a missing index.json are not modelled;     *)
@@ -79,6 +83,8 @@ CONSTANTS Copies,     \* ids of the ImageCopy calls, e.g. {"c1", "c2"}
           Confs,      \* configurations to explore (LayoutGCMC)
           MaxCloses,  \* number of rc.Close calls
           MaxOps,     \* number of other events (deletes, pushes, a failing source request)
+          NormKeys,   \* TRUE: modRefs is keyed by the normalized path (ocidir.go:gcKey, fix 333d01d);
+                      \* FALSE: by the literal r.Path, as found (finding C08-1)
           Eager       \* TRUE: steps of a copy that wait for nothing run before anything else
                       \* (hand-made partial order reduction for the graph-shape configurations;
                       \* the lock configurations are explored with every interleaving)
@@ -116,7 +122,10 @@ Nodes == Mans \cup UNION {Kids(n) : n \in Mans}
 Tmp(c, b) == "tmp-" \o c \o "-" \o b        \* BlobPut temp file of copy c for blob b
 TmpNames == {Tmp(c, b) : c \in Copies, b \in Nodes} \cup {"tmp-bad", "tmp-plant", "tmp-plant-man"}
 IsTmp(x) == x \in TmpNames
-Keys == {conf.cp[c].key : c \in Copies} \cup conf.ckeys \cup {conf.okey}
+\* ocidir.go:gcKey: filepath.Clean + Abs; the spellings used here are the path ("p") and the path
+\* with a trailing slash ("p/")
+GcKey(k) == IF NormKeys THEN (IF k = "p/" THEN "p" ELSE k) ELSE k
+Keys == {GcKey(k) : k \in {conf.cp[c].key : c \in Copies} \cup conf.ckeys \cup {conf.okey}}
 
 -----------------------------------------------------------------------------
 (* Statement level reachability and the code's mark phase.                  *)
@@ -202,7 +211,7 @@ CopyBegin(c) ==
   /\ cst[c] = "idle"
   /\ cst' = [cst EXCEPT ![c] = "run"]
   /\ act' = [act EXCEPT ![c] = {CP(c).root}]
-  /\ modRefs' = GCLock(modRefs, CP(c).key)
+  /\ modRefs' = GCLock(modRefs, GcKey(CP(c).key))
   /\ UNCHANGED <<conf, files, idx, hasidx, need, hit, got, tmpf, fin, rl, closes, ops>>
 
 \* ManifestHead on the layout.  Root: by tag, the digest found is kept for the comparison with the
@@ -261,7 +270,7 @@ CopyBlobCommit(c, b) ==
   /\ tmpf' = [tmpf EXCEPT ![c] = @ \ {b}]
   /\ IF Tmp(c, b) \in files
      THEN /\ files' = (files \ {Tmp(c, b)}) \cup {b}
-          /\ modRefs' = RefMod(modRefs, CP(c).key)
+          /\ modRefs' = RefMod(modRefs, GcKey(CP(c).key))
           /\ fin' = [fin EXCEPT ![c] = @ \cup {b}]
           /\ cst' = cst
      ELSE /\ cst' = [cst EXCEPT ![c] = "fail"]          \* rename: no such file
@@ -284,7 +293,7 @@ CopyPutManifest(c, n) ==
      /\ idx' = r.idx
      /\ cst' = IF r.ok THEN cst ELSE [cst EXCEPT ![c] = "fail"]
   /\ hasidx' = TRUE
-  /\ modRefs' = RefMod(modRefs, CP(c).key)
+  /\ modRefs' = RefMod(modRefs, GcKey(CP(c).key))
   /\ act' = [act EXCEPT ![c] = @ \ {n}]
   /\ fin' = [fin EXCEPT ![c] = @ \cup {n}]
   /\ UNCHANGED <<conf, need, hit, got, tmpf, rl, closes, ops>>
@@ -292,7 +301,7 @@ CopyPutManifest(c, n) ==
 CopyEnd(c) ==
   /\ cst[c] = "run" /\ act[c] = {} /\ tmpf[c] = {}
   /\ cst' = [cst EXCEPT ![c] = "ok"]
-  /\ modRefs' = GCUnlock(modRefs, CP(c).key)
+  /\ modRefs' = GCUnlock(modRefs, GcKey(CP(c).key))
   /\ UNCHANGED <<conf, files, idx, hasidx, act, need, hit, got, tmpf, fin, rl, closes, ops>>
 
 \* a request to the source fails (counted as one of the MaxOps other events): the error is
@@ -310,7 +319,7 @@ CopyFailEnd(c) ==
   /\ cst' = [cst EXCEPT ![c] = "err"]
   /\ act' = [act EXCEPT ![c] = {}]
   /\ need' = [need EXCEPT ![c] = {}]
-  /\ modRefs' = GCUnlock(modRefs, CP(c).key)
+  /\ modRefs' = GCUnlock(modRefs, GcKey(CP(c).key))
   /\ UNCHANGED <<conf, files, idx, hasidx, hit, got, tmpf, fin, rl, closes, ops>>
 
 \* a put that was between temp file and rename when the copy failed still finishes (or fails)
@@ -319,14 +328,15 @@ CopyFailDrain(c, b) ==
   /\ tmpf' = [tmpf EXCEPT ![c] = @ \ {b}]
   /\ IF Tmp(c, b) \in files
      THEN /\ files' = (files \ {Tmp(c, b)}) \cup {b}
-          /\ modRefs' = RefMod(modRefs, CP(c).key)
+          /\ modRefs' = RefMod(modRefs, GcKey(CP(c).key))
      ELSE UNCHANGED <<files, modRefs>>
   /\ UNCHANGED <<conf, idx, hasidx, cst, act, need, hit, got, fin, rl, closes, ops>>
 
 \* ---- the collector ----
 \* (readIndex fails while index.json does not exist: Close returns the error, nothing changes)
 GCRuns(k) == conf.gc /\ modRefs[k].ex /\ modRefs[k].mod /\ modRefs[k].locks = 0 /\ hasidx
-Close(k) ==
+Close(kk) ==
+  LET k == GcKey(kk) IN
   /\ closes < MaxCloses
   /\ closes' = closes + 1
   /\ IF GCRuns(k)
@@ -341,7 +351,7 @@ CopyVars == <<cst, act, need, hit, got, tmpf, fin, rl>>
 TagDelete(t) ==
   /\ Op /\ t # "" /\ t \in conf.tdels /\ hasidx /\ \E e \in idx : e[1] = t
   /\ idx' = {e \in idx : e[1] # t}
-  /\ modRefs' = RefMod(modRefs, conf.okey)
+  /\ modRefs' = RefMod(modRefs, GcKey(conf.okey))
   /\ UNCHANGED <<conf, files, hasidx, CopyVars, closes>>
 
 ManifestDelete(n) ==
@@ -349,7 +359,7 @@ ManifestDelete(n) ==
   /\ LET r == IF Cat[n].subj = "" THEN [ok |-> FALSE, files |-> files, idx |-> idx] ELSE RefDel(files, idx, n) IN
      /\ idx' = {e \in r.idx : e[2] # n}
      /\ files' = r.files \ {n}
-  /\ modRefs' = RefMod(modRefs, conf.okey)
+  /\ modRefs' = RefMod(modRefs, GcKey(conf.okey))
   /\ UNCHANGED <<conf, hasidx, CopyVars, closes>>
 
 \* p = <<from tag, to tag>>: the manifest file is rewritten with the same content, the new tag
@@ -360,13 +370,13 @@ Retag(p) ==
   /\ LET r == ManPut(files, idx, TagAt(idx, p[1]), p[2], FALSE) IN
      /\ files' = r.files
      /\ idx' = r.idx
-  /\ modRefs' = GCUnlock(RefMod(GCLock(modRefs, conf.okey), conf.okey), conf.okey)
+  /\ modRefs' = GCUnlock(RefMod(GCLock(modRefs, GcKey(conf.okey)), GcKey(conf.okey)), GcKey(conf.okey))
   /\ UNCHANGED <<conf, hasidx, CopyVars, closes>>
 
 PushBlob(b) ==
   /\ Op /\ b \in conf.pblobs
   /\ files' = files \cup {b}
-  /\ modRefs' = RefMod(modRefs, conf.okey)
+  /\ modRefs' = RefMod(modRefs, GcKey(conf.okey))
   /\ UNCHANGED <<conf, idx, hasidx, CopyVars, closes>>
 
 PushBlobBad ==
@@ -381,7 +391,7 @@ PushManifest(p) ==
      /\ files' = r.files
      /\ idx' = r.idx
   /\ hasidx' = TRUE
-  /\ modRefs' = RefMod(modRefs, conf.okey)
+  /\ modRefs' = RefMod(modRefs, GcKey(conf.okey))
   /\ UNCHANGED <<conf, CopyVars, closes>>
 
 -----------------------------------------------------------------------------
@@ -419,7 +429,7 @@ TypeOK ==
 LocksNonNeg == \A k \in Keys : modRefs[k].locks >= 0
 \* the lock count of a path is the number of copies in progress with that path; in particular an
 \* entry is never deleted (by Close, or by anything else) while it carries a positive count
-Holders(k) == Cardinality({c \in Copies : InProg(c) /\ CP(c).key = k})
+Holders(k) == Cardinality({c \in Copies : InProg(c) /\ GcKey(CP(c).key) = k})
 LocksExact == \A k \in Keys : IF modRefs[k].ex THEN modRefs[k].locks = Holders(k) ELSE Holders(k) = 0
 \* the mark phase finds exactly what the index reaches (lemma behind O1 and O2)
 MarkIsReach == MarkAll(files, idx) \cap files = Reach(files, idx) \cap files
